@@ -48,6 +48,8 @@ pub fn cke(ctx: &Ctx, x: &TlsClientKeyExchangeContents) -> String {
         TlsClientKeyExchangeContents::Dh(s) => c("Dh", &[slice(ctx, s)]),
         TlsClientKeyExchangeContents::Ecdh(p) => c("Ecdh", &[slice(ctx, p.point)]),
         TlsClientKeyExchangeContents::Unknown(s) => c("Unknown", &[slice(ctx, s)]),
+        #[allow(unreachable_patterns)]
+        _ => "(variant-unknown-to-the-harness)".to_string(),
     }
 }
 pub fn cstatus(ctx: &Ctx, x: &TlsCertificateStatusContents) -> String {
@@ -85,6 +87,8 @@ pub fn hs(ctx: &Ctx, h: &TlsMessageHandshake) -> String {
         CertificateStatus(x) => cstatus(ctx, x),
         NextProtocol(x) => nextproto(ctx, x),
         KeyUpdate(v) => c("KeyUpdate", &[n(*v)]),
+        #[allow(unreachable_patterns)]
+        _ => "(variant-unknown-to-the-harness)".to_string(),
     }
 }
 
@@ -105,6 +109,8 @@ pub fn msg(ctx: &Ctx, m: &TlsMessage) -> String {
         TlsMessage::Alert(a) => alert(a),
         TlsMessage::ApplicationData(a) => appdata(ctx, a),
         TlsMessage::Heartbeat(h) => heartbeat(ctx, h),
+        #[allow(unreachable_patterns)]
+        _ => "(variant-unknown-to-the-harness)".to_string(),
     }
 }
 pub fn msgs(ctx: &Ctx, l: &Vec<TlsMessage>) -> String {
@@ -154,6 +160,8 @@ pub fn ext(ctx: &Ctx, e: &TlsExtension) -> String {
         ),
         Grease(t, s) => c("Grease", &[n(*t), slice(ctx, s)]),
         Unknown(t, s) => c("Unknown", &[n(t.0), slice(ctx, s)]),
+        #[allow(unreachable_patterns)]
+        _ => "(variant-unknown-to-the-harness)".to_string(),
     }
 }
 pub fn exts(ctx: &Ctx, l: &Vec<TlsExtension>) -> String {
@@ -170,6 +178,8 @@ pub fn ecc(ctx: &Ctx, x: &ECParametersContent) -> String {
             slice(ctx, p.order), slice(ctx, p.cofactor),
         ]),
         ECParametersContent::NamedGroup(g) => c("NamedGroup", &[n(g.0)]),
+        #[allow(unreachable_patterns)]
+        _ => "(variant-unknown-to-the-harness)".to_string(),
     }
 }
 pub fn ecp(ctx: &Ctx, p: &ECParameters) -> String {
@@ -210,6 +220,8 @@ pub fn dbody(ctx: &Ctx, b: &DTLSMessageHandshakeBody) -> String {
         CertificateStatus(x) => cstatus(ctx, x),
         NextProtocol(x) => nextproto(ctx, x),
         Fragment(s) => c("Fragment", &[slice(ctx, s)]),
+        #[allow(unreachable_patterns)]
+        _ => "(variant-unknown-to-the-harness)".to_string(),
     }
 }
 pub fn dmsg(ctx: &Ctx, m: &DTLSMessage) -> String {
@@ -223,6 +235,8 @@ pub fn dmsg(ctx: &Ctx, m: &DTLSMessage) -> String {
         DTLSMessage::Alert(a) => alert(a),
         DTLSMessage::ApplicationData(a) => appdata(ctx, a),
         DTLSMessage::Heartbeat(h) => heartbeat(ctx, h),
+        #[allow(unreachable_patterns)]
+        _ => "(variant-unknown-to-the-harness)".to_string(),
     }
 }
 pub fn dmsgs(ctx: &Ctx, l: &Vec<DTLSMessage>) -> String {
